@@ -27,6 +27,11 @@ import (
 
 const verifRoot = "/verif"
 
+// repoRoot is the tree under test: /repo, or a scratch copy (development aid for
+// trying seeded changes without touching /repo; evidence is not written then).
+var repoRoot = "/repo"
+var altTag = ""
+
 type findings struct {
 	Known []struct {
 		Property string `json:"property"`
@@ -50,7 +55,14 @@ func main() {
 	keep := flag.Bool("keep", false, "keep the run directory")
 	onlyBatch := flag.Int("batch", -1, "run only this batch")
 	manifest := flag.Bool("write-manifest", false, "write /verif/MANIFEST.json from the registered checks")
+	classify := flag.String("classify", "", "debug: classify a child output file")
 	flag.Parse()
+	if *classify != "" {
+		b, _ := os.ReadFile(*classify)
+		v, inc := classifyCrash(string(b), 124, false)
+		fmt.Printf("violation=%+v inconclusive=%q\n", v, inc)
+		return
+	}
 	if *manifest {
 		writeManifest()
 		return
@@ -84,6 +96,10 @@ func main() {
 	if !ok {
 		fatal2("unknown property %q", *id)
 	}
+	if v := os.Getenv("VERIF_REPO"); v != "" && v != "/repo" {
+		repoRoot = strings.TrimRight(v, "/")
+		altTag = fmt.Sprintf("-alt%x", rt.HashString(repoRoot)&0xffffff)
+	}
 	os.Exit(runCheck(*id, p, *tier, seed, *onlyBatch, *keep, *replay != ""))
 }
 
@@ -100,8 +116,23 @@ func goEnv() []string {
 
 func build(p *prop, buildDir string) (string, map[string]string, error) {
 	harness := filepath.Join(verifRoot, "harness")
-	name := p.Pkg
-	args := []string{"test", "-c", "-tags", "verif", "-vet=off"}
+	name := p.Pkg + altTag
+	var modArgs []string
+	if altTag != "" {
+		gm, err := os.ReadFile(filepath.Join(harness, "go.mod"))
+		if err != nil {
+			return "", nil, err
+		}
+		mf := filepath.Join(buildDir, "go"+altTag+".mod")
+		txt := strings.ReplaceAll(string(gm), "=> /repo", "=> "+repoRoot)
+		if err := os.WriteFile(mf, []byte(txt), 0o644); err != nil {
+			return "", nil, err
+		}
+		gs, _ := os.ReadFile(filepath.Join(harness, "go.sum"))
+		os.WriteFile(filepath.Join(buildDir, "go"+altTag+".sum"), gs, 0o644)
+		modArgs = []string{"-modfile=" + mf}
+	}
+	args := append([]string{"test", "-c", "-tags", "verif", "-vet=off"}, modArgs...)
 	if p.Race {
 		args = append(args, "-race")
 		name += "-race"
@@ -116,8 +147,8 @@ func build(p *prop, buildDir string) (string, map[string]string, error) {
 	}
 	aux := map[string]string{}
 	for _, a := range p.Aux {
-		abin := filepath.Join(buildDir, a)
-		args := []string{"build", "-tags", "verif", "-o", abin, "./cmd/" + a}
+		abin := filepath.Join(buildDir, a+altTag)
+		args := append(append([]string{"build", "-tags", "verif"}, modArgs...), "-o", abin, "./cmd/"+a)
 		cmd := exec.Command("go", args...)
 		cmd.Dir = harness
 		cmd.Env = goEnv()
@@ -253,6 +284,12 @@ func runCheck(id string, p *prop, tier string, seed int64, onlyBatch int, keep, 
 				inconclusive = append(inconclusive, fmt.Sprintf("batch %d: unreadable result: %v", b, err))
 			}
 		}
+		if !res.Finished {
+			// partial result of a batch that crashed or was stopped: its violations still count
+			for _, v := range res.Violations {
+				viols = append(viols, violation{Violation: v, Batch: b})
+			}
+		}
 		if res.Finished {
 			finished++
 			evals += res.Evaluations
@@ -386,7 +423,7 @@ func runCheck(id string, p *prop, tier string, seed int64, onlyBatch int, keep, 
 		"wall_s":      time.Since(start).Seconds(),
 		"violations":  len(viols) - sumVals(knownHit),
 	}
-	if !isReplay {
+	if !isReplay && altTag == "" {
 		eb, _ := json.MarshalIndent(ev, "", " ")
 		if err := os.WriteFile(filepath.Join(verifRoot, "evidence", id+".json"), append(eb, '\n'), 0o644); err != nil {
 			fatal2("cannot write evidence: %v", err)
@@ -543,7 +580,7 @@ func shortFunc(f string) string {
 func innermostRepoFrame(lines []string) string {
 	for i := 1; i < len(lines); i++ {
 		l := strings.TrimSpace(lines[i])
-		if strings.HasPrefix(l, "/repo/") && i > 0 {
+		if strings.HasPrefix(l, repoRoot+"/") && i > 0 {
 			fn := strings.TrimSpace(lines[i-1])
 			if j := strings.LastIndex(fn, "("); j > 0 {
 				fn = fn[:j]
@@ -589,7 +626,7 @@ func parseRaces(log string) []raceReport {
 				if first == "" {
 					first = f
 				}
-				if strings.HasPrefix(file, "/repo/") {
+				if strings.HasPrefix(file, repoRoot+"/") {
 					fn = f
 					lib = true
 					break
